@@ -5,7 +5,7 @@ from typing import List, Optional, Tuple
 
 from ..engine import analyse_env, get_tree
 from ..loader import AnalysisError, short
-from ..normal import ext_name, negand, strip_cast
+from ..normal import ext_name, is_negation, negand, strip_cast
 from ..report import Result
 from ..terms import T, children, contains, deps, mk
 from .common import analyses, env_site, last_conditions, leaves, step_types, timestep_kind, txt
@@ -136,6 +136,61 @@ def check(tier: str) -> Result:
             validity[name] = V
             res.add("C05.R1", site, fn, "an invalid action terminates the episode (LAST predicate has a disjunct not V)", True, f"V = {txt(V, 4, 100)} [{how}]")
         n_sites += 1
+    # ------------------------------------------------------------------ R4 the invalid-move reward has priority
+    from ..normal import conjuncts as _conj, disjuncts as _disj
+    for name in TERMINATE_ON_INVALID:
+        V = validity.get(name)
+        if V is None:
+            continue
+        ea = by_name[name]
+        vfg = ea.vfg
+        site, fn = env_site(ea, "step")
+        Vc = strip_cast(V)
+        rewards = []
+        for l, _ in leaves(ea.step_ts):
+            if l.kind == "construct":
+                rw = vfg.mk_attr(l, "reward")
+                for alt in (rw.args[0] if rw.kind == "phi" else (rw,)):
+                    if alt not in rewards:
+                        rewards.append(alt)
+        for rw in rewards:
+            t = strip_cast(rw)
+            if not contains(t, Vc):
+                res.add("C05.R4", site, fn, "when the action is invalid the reward is the invalid-move reward (not overridden by another condition)", None,
+                        f"reward {txt(t, 3, 90)} does not depend on the validity value: not decided", nontrivial=False)
+                continue
+            path = []
+            verdict = None
+            cur = t
+            for _i in range(8):
+                cur = strip_cast(cur)
+                if cur.kind == "bin" and cur.args[0] == "*" and (strip_cast(cur.args[1]) is Vc or strip_cast(cur.args[2]) is Vc):
+                    verdict = (True, "reward is multiplied by the validity value: zero when invalid")
+                    break
+                if cur.kind != "choice" or len(cur.args[2]) != 2:
+                    verdict = (True, f"invalid-move reward = {txt(cur, 3, 70)}") if path else (None, f"reward {txt(cur, 3, 80)}: no selection on validity at the top")
+                    break
+                p_ = cur.args[1]
+                ds = [strip_cast(x) for x in _disj(p_)]
+                cs = [strip_cast(x) for x in _conj(p_)]
+                vset = {strip_cast(x).id for x in _conj(Vc)}
+                if any(negand(x) is Vc or is_negation(x, Vc) for x in ds):
+                    path.append("not V => first branch")
+                    cur = cur.args[2][0]
+                elif any(x is Vc for x in cs) or vset <= {x.id for x in cs}:
+                    path.append("V false => second branch")
+                    cur = cur.args[2][1]
+                elif contains(p_, Vc):
+                    verdict = (None, f"condition {txt(p_, 3, 80)} mixes validity with other tests: not decided")
+                    break
+                else:
+                    verdict = (False, f"the selection on {txt(p_, 3, 80)} is decided before validity is looked at: an invalid action can receive "
+                                      f"{txt(cur.args[2][0], 3, 50)} instead of the invalid-move reward")
+                    break
+            if verdict is None:
+                verdict = (None, "selection chain too deep")
+            res.add("C05.R4", site, fn, "when the action is invalid the reward is the invalid-move reward (not overridden by another condition)", verdict[0],
+                    verdict[1] + (f" [{'; '.join(path)}]" if path else ""), nontrivial=verdict[0] is not None)
     # ------------------------------------------------------------------ R2
     for name, derived in UNTOUCHED.items():
         ea = by_name[name]
